@@ -34,8 +34,8 @@ CHECK = SessionCheck(
           'forming higher-timeframe candle; distinct = distinct per-minute event-kind signature of the whole trace'),
     assumptions=['session start and warm-up length aligned to every route timeframe (stated in the property)',
                  'partial 1m candle at a mid-minute hook only required to lie inside its minute (not defined by the statement)',
-                 'fast simulator: interior minutes of a chunk may keep their raw (un-normalised) open'],
+                 'the candle-generation helper _get_generated_candles is compared on the stored 1m candles after the run (ride-along)'],
     real_components=COMMON_REAL, stub_components=COMMON_STUB,
     fault_kinds=['c07_mid_minute_reads'],
-    probes=['c07_forming_reads', 'c07_tf_reads', 'c07_mid_minute_reads', 'c07_fast_interior_not_normalised', 'c07_read_raised'],
+    probes=['c07_forming_reads', 'c07_tf_reads', 'c07_mid_minute_reads', 'c07_read_raised', 'c07_helper_checks'],
 )
